@@ -58,6 +58,32 @@ def job_lines(rng, n):
     return out
 
 
+def layered_job(rng, n):
+    """A job shaped like a sliced print (added after seed C15d: the queue index -> (layer, line) table of gcoder): layers at
+    increasing heights with extruding moves, Z-hops that come back to the same height and extrude again, travel moves, and
+    non-extruding lines after the last lift."""
+    out, z, e, i = [], 0.0, 0.0, 0
+    while len(out) < n:
+        kind = rng.choice(["layer", "extrude", "extrude", "hop", "travel", "misc"])
+        i += 1
+        if kind == "layer":
+            z = round(z + rng.choice([0.2, 0.3]), 2)
+            out.append("G1 Z%.2f F600" % z)
+        elif kind == "extrude":
+            e = round(e + rng.uniform(0.1, 2.0), 3)
+            out.append("G1 X%d Y%d E%.3f" % (i, rng.randint(0, 50), e))
+        elif kind == "hop":
+            out += ["G1 Z%.2f" % (z + 0.4), "G0 X%d Y%d" % (i, rng.randint(51, 99)), "G1 Z%.2f" % z]
+        elif kind == "travel":
+            out.append("G0 X%d Y%d" % (i, rng.randint(100, 150)))
+        else:
+            out.append(rng.choice(["M106 S%d", "M104 S%d", "; layer note %d"]) % (100 + i))
+    out = out[:n]
+    if rng.random() < 0.6:
+        out += ["G1 Z%.2f" % (z + 5.0), "M84", "M107"][:rng.randint(1, 3)]
+    return out
+
+
 def project(trace):
     """A recorded execution in SenderImpl's vocabulary: line numbers, command indices, reply kinds."""
     job = [bytes(x).decode() for x in trace["job"]]
@@ -263,7 +289,7 @@ class P(flow.Plan):
         for i in range(n):
             rng = random.Random(sd * 7577 + i)
             k = rng.randint(1, 8)
-            lines = job_lines(rng, k)
+            lines = job_lines(rng, k) if i % 3 else layered_job(rng, rng.randint(4, 12))
             ntx_guess = k + 2
             corrupt = sorted(rng.sample(range(0, ntx_guess + 3), rng.choice([0, 1, 1, 2, 3])))
             if rng.random() < 0.7 and 0 in corrupt:
